@@ -57,7 +57,7 @@ def loaded_cases(rng, tier, shared):
         cases.append(('ld%d_p' % i, ['loadx 0 ' + name, 'snap 0', 'P.new %s x' % hx(b'NOTYPE'), 'param 0 ' + hx(b'BRANDNEW'), 'snap 0'], 'loaded:untyped-parameter-new-group'))
     return cases
 
-def refusing_calls(rng, sh):
+def refusing_calls(rng, sh, heavy=False):
     """calls that must be refused, incl. calls whose arguments are only partly invalid"""
     out = []
     nf = sh.nframes
@@ -103,6 +103,11 @@ def refusing_calls(rng, sh):
     out.append(('param:bad-dims', ['P.new %s x' % hx(b'Q'), 'P.set I 0 1 7', 'P.set I 2 2 2 3 1 2 3', 'P.show', 'param 0 ' + hx(b'EXTRA')]))
     out.append(('lock:unknown', ['lock 0 ' + hx(b'NOSUCH')])); out.append(('unlock:unknown', ['unlock 0 ' + hx(b'NOSUCH')]))
     out.append(('frame:huge-index', ['frame 0 4611686018427387904 ' + rand_lit(rng, sh.pts, sh.chans, sh.expected_nsub() if sh.chans else 0).text()]))
+    if heavy:
+        # an index at the 16-bit frame-count boundary of the format: accepted by the library (the data set is extended); were it
+        # refused, it must be refused BEFORE the data set has grown
+        for ix in (65534, 65535, 65536):
+            out.append(('frame:index-%d' % ix, ['frame 0 %d %s' % (ix, rand_lit(rng, sh.pts, sh.chans, sh.expected_nsub() if sh.chans else 0).text())]))
     # mandatory parameter retyped (the object is then outside the documented use: listed as a known finding)
     out.append(('param:retype-USED', ['P.new %s x' % hx(b'USED'), 'P.set F 0 1 3f800000', 'param 0 ' + hx(b'POINT')]))
     return out
@@ -114,7 +119,7 @@ def run(rep, work, rng, tier):
     for i in range(n):
         b = conforming_history(rng, max_frames=rng.choice([2, 4]), snap=False, with_cols=rng.random() < 0.5)
         base = b.lines[:-1] if b.lines[-1] == 'snap 0' else b.lines
-        for j, (kind, calls) in enumerate(refusing_calls(rng, b.sh)):
+        for j, (kind, calls) in enumerate(refusing_calls(rng, b.sh, heavy=(i < 2))):
             cases.append(('r%d_%d' % (i, j), base + ['snap 0'] + calls + ['snap 0']))
             kinds[kind] = kinds.get(kind, 0) + 1
     shared = work.sub('shared')
